@@ -1,6 +1,6 @@
 (* Ext.v — forward compatibility at every depth (property C15) for the covered part of a package table.
-   [xt P j j']: j' is j with properties outside the declared-name list D added to objects that sit where the annotation P says a
-   protocol object (a generated class) is — at any depth, through arrays, maps, class attributes and unions (at a union the
+   [xt P j j']: j' is j with properties outside the declared-name list D added — at any position among the members — to objects that
+   sit where the annotation P says a protocol object (a generated class) is — at any depth, through arrays, maps, class attributes and unions (at a union the
    extension has to be an extension for every alternative the value is valid for; inside LSPAny / LSPObject payloads and tuples
    nothing is added: what is added there is data, not an unknown property).
    [ext_inv]: for every covered annotation P, every Python-valid j and every such j', structuring j' gives, for all sufficiently
@@ -61,14 +61,16 @@ Notation structure := (structure Sg py_str).
 Notation pvalid := (pvalid Sg NL).
 Notation okty := (okty Sg GC GU).
 
+(* the declared part of an object: its members whose names are declared, in order; everything else is an unknown property *)
+Definition kn (m : list (string * json)) : list (string * json) := filter (fun kv => mem (fst kv) D) m.
+
 Inductive xt : pty -> json -> json -> Prop :=
 | xt_refl P j : xt P j j
 | xt_seq t l l' : Forall2 (xt t) l l' -> xt (PySeq t) (JArr l) (JArr l')
 | xt_dict k v m m' : Forall2 (fun a b => fst a = fst b /\ xt v (snd a) (snd b)) m m' -> xt (PyDict k v) (JObj m) (JObj m')
-| xt_cls c fs m m2 ex : lookup_cls Sg c = Some fs ->
-    Forall2 (fun a b => fst a = fst b /\ forall f, In f fs -> fwire f = fst a -> xt (ftype f) (snd a) (snd b)) m m2 ->
-    (forall k, In k (keys ex) -> mem k D = false) ->
-    xt (PyCls c) (JObj m) (JObj (m2 ++ ex))
+| xt_cls c fs m m' : lookup_cls Sg c = Some fs ->
+    Forall2 (fun a b => fst a = fst b /\ forall f, In f fs -> fwire f = fst a -> xt (ftype f) (snd a) (snd b)) m (kn m') ->
+    xt (PyCls c) (JObj m) (JObj m')
 | xt_union ms j j' : (forall t, In t ms -> pvalid t j -> xt t j j') -> xt (PyUnion ms) j j'.
 
 Definition Inv (P : pty) (j j' : json) : Prop := exists n0, forall n, n0 <= n -> structure n P j' = structure n P j.
@@ -84,23 +86,44 @@ Proof.
   inversion X as [| | | |ms0 j0 j0' U]; subst; [reflexivity|]. exact (IH v' (U t It Ht)).
 Qed.
 
-Lemma fresh_not_in k (ex : list (string * json)) : (forall k, In k (keys ex) -> mem k D = false) -> mem k D = true -> ~ In k (keys ex).
-Proof. intros F M I. rewrite (F k I) in M. discriminate. Qed.
+Lemma assoc_kn k m' : mem k D = true -> assoc k (kn m') = assoc k m'.
+Proof.
+  intros M. unfold assoc, kn. induction m' as [|[a b] m' IH]; [reflexivity|]. cbn [filter fst find].
+  destruct (mem a D) eqn:MA; cbn [find fst].
+  - destruct (String.eqb a k); [reflexivity | exact IH].
+  - destruct (String.eqb_spec a k) as [->|N]; [congruence | exact IH].
+Qed.
+Lemma mem_kn k m' : mem k D = true -> mem k (keys (kn m')) = mem k (keys m').
+Proof.
+  intros M. unfold keys, kn, mem. induction m' as [|[a b] m' IH]; [reflexivity|]. cbn [filter fst map existsb].
+  destruct (existsb (String.eqb a) D) eqn:MA; cbn [map existsb fst].
+  - rewrite IH. reflexivity.
+  - rewrite IH. destruct (String.eqb_spec k a) as [->|N]; [unfold mem in M; congruence | reflexivity].
+Qed.
+(* facts about an object and an extension of it *)
+Lemma mem_ext (Q : string * json -> string * json -> Prop) m m' k :
+  Forall2 (fun a b => fst a = fst b /\ Q a b) m (kn m') -> mem k D = true -> mem k (keys m') = mem k (keys m).
+Proof. intros F M. rewrite <- (mem_kn k m' M), (F2_keys _ _ _ F). reflexivity. Qed.
+Lemma assoc_ext_some (Q : string * json -> string * json -> Prop) m m' k v :
+  Forall2 (fun a b => fst a = fst b /\ Q a b) m (kn m') -> mem k D = true -> assoc k m = Some v ->
+  exists v', assoc k m' = Some v' /\ Q (k, v) (k, v').
+Proof. intros F M A. destruct (F2_assoc _ _ _ k F v A) as [v' [A' q]]. exists v'. split; [rewrite <- (assoc_kn k m' M); exact A' | exact q]. Qed.
+Lemma assoc_ext_none (Q : string * json -> string * json -> Prop) m m' k :
+  Forall2 (fun a b => fst a = fst b /\ Q a b) m (kn m') -> mem k D = true -> assoc k m = None -> assoc k m' = None.
+Proof. intros F M A. rewrite <- (assoc_kn k m' M). apply assoc_none. rewrite (F2_keys _ _ _ F). apply assoc_none. exact A. Qed.
 
 (* one attribute reads the same from the extended object *)
-Lemma sfield_ext rec m m2 ex f : keys m2 = keys m -> ~ In (fwire f) (keys ex) ->
-  (forall v, assoc (fwire f) m = Some v -> exists v', assoc (fwire f) m2 = Some v' /\ rec (ftype f) v' = rec (ftype f) v) ->
-  sfield rec (JObj (m2 ++ ex)) f = sfield rec (JObj m) f.
+Lemma sfield_ext rec m m' f : mem (fwire f) (keys m') = mem (fwire f) (keys m) ->
+  (forall v, assoc (fwire f) m = Some v -> exists v', assoc (fwire f) m' = Some v' /\ rec (ftype f) v' = rec (ftype f) v) ->
+  (assoc (fwire f) m = None -> assoc (fwire f) m' = None) ->
+  sfield rec (JObj m') f = sfield rec (JObj m) f.
 Proof.
-  intros K NI H. unfold sfield.
+  intros K H HN. unfold sfield.
   assert (AS : match assoc (fwire f) m with
-               | Some v => exists v', assoc (fwire f) (m2 ++ ex) = Some v' /\ rec (ftype f) v' = rec (ftype f) v
-               | None => assoc (fwire f) (m2 ++ ex) = None end).
-  { destruct (assoc (fwire f) m) as [v|] eqn:A.
-    - destruct (H v eq_refl) as [v' [A' E]]. exists v'. split; [apply assoc_app_l; exact A' | exact E].
-    - rewrite assoc_app_fresh; [|exact NI]. apply assoc_none. rewrite K. apply assoc_none. exact A. }
-  assert (PI : py_in (fwire f) (JObj (m2 ++ ex)) = py_in (fwire f) (JObj m)).
-  { cbn [py_in]. unfold keys in *. rewrite map_app, mem_app_fresh; [|exact NI]. rewrite K. reflexivity. }
+               | Some v => exists v', assoc (fwire f) m' = Some v' /\ rec (ftype f) v' = rec (ftype f) v
+               | None => assoc (fwire f) m' = None end).
+  { destruct (assoc (fwire f) m) as [v|] eqn:A; [exact (H v eq_refl) | exact (HN eq_refl)]. }
+  assert (PI : py_in (fwire f) (JObj m') = py_in (fwire f) (JObj m)) by (cbn [py_in]; rewrite K; reflexivity).
   destruct (fdefault f).
   - destruct (assoc (fwire f) m) as [v|]; [destruct AS as [v' [-> ->]]; reflexivity | rewrite AS; reflexivity].
   - rewrite PI. destruct (py_in (fwire f) (JObj m)) as [[|]| |]; cbn [bind]; try reflexivity.
@@ -132,15 +155,6 @@ Hypothesis T_wires : forall c fs, mem c GC = true -> lookup_cls Sg c = Some fs -
 Hypothesis T_fields : forall c fs f, mem c GC = true -> lookup_cls Sg c = Some fs -> In f fs -> okty (ftype f) = true.
 Hypothesis D_wires : forall c fs f, lookup_cls Sg c = Some fs -> In f fs -> mem (fwire f) D = true.
 Hypothesis D_probes : forall u h k, lookup_uhook Sg u = Some h -> In k (hprobes h) -> mem k D = true.
-
-(* membership of a declared key is the same in the extended object *)
-Lemma mem_ext (Q : string * json -> string * json -> Prop) m m2 ex k :
-  Forall2 (fun a b => fst a = fst b /\ Q a b) m m2 -> (forall k, In k (keys ex) -> mem k D = false) -> mem k D = true ->
-  mem k (keys (m2 ++ ex)) = mem k (keys m).
-Proof.
-  intros F FR M. unfold keys. rewrite map_app. rewrite mem_app_fresh; [|exact (fresh_not_in k ex FR M)].
-  change (map fst m2) with (keys m2). rewrite (F2_keys _ _ _ F). reflexivity.
-Qed.
 
 (* ------------------------------------------------------------ hooks *)
 Lemma hook_ext ms h : hook_ok Sg NL GC GU ms h = true -> (forall k, In k (hprobes h) -> mem k D = true) ->
@@ -219,9 +233,9 @@ Proof.
       { cbn [shape_of]. apply (leaf_unk h (keys m0) m0 _ LF). intros k _. reflexivity. }
       assert (LK' : sleaf h (shape_of (JArr (x0' :: l0'))) = Some (RMap HObj (RStruct HItem (PyCls c')))).
       { inversion F' as [|a b la lb Xa Fa]; subst. cbn [shape_of].
-        inversion Xa as [|  | |c0 fs0 ma m2 ex L0 Fm FR|]; subst.
+        inversion Xa as [|  | |c0 fs0 ma m1' L0 Fm|]; subst.
         - apply (leaf_unk h (keys m0) m0 _ LF). intros k _. reflexivity.
-        - apply (leaf_unk h (keys m0) (m2 ++ ex) _ LF). intros k Ik. apply (mem_ext _ _ _ _ _ Fm FR). apply HPr. exact Ik. }
+        - apply (leaf_unk h (keys m0) m1' _ LF). intros k Ik. apply (mem_ext _ _ _ _ Fm). apply HPr. exact Ik. }
       destruct (uniform2 (xt (PyCls c')) (fun x x' n => structure n (PyCls c') x' = structure n (PyCls c') x) _ _ F') as [N HN].
       { intros x x' Ix Xx. apply (SUB x (PyCls c') x'); [apply jsize_in_arr; exact Ix | exact OK' | exact (Vc' x Ix) | exact Xx]. }
       exists N. intros n Ln. rewrite (sleaf_sound _ _ h _ _ LK), (sleaf_sound _ _ h _ _ LK').
@@ -231,7 +245,7 @@ Proof.
       rewrite (mapM_F2 (structure n (PyCls c')) (structure n (PyCls c')) (JObj m0 :: l0) (x0' :: l0')); [reflexivity | exact (HN n Ln)].
   - (* PyCls *)
     rename n into c. inversion Vt as [| | | | | | | | | | | | |c0 fs m L ND Hp Hr|]; subst c0 j.
-    inversion Xt as [| | |c0 fs0 m1 m2 ex L0 Fm FR|]; subst; [exists 0; reflexivity|].
+    inversion Xt as [| | |c0 fs0 m1 m' L0 Fm|]; subst; [exists 0; reflexivity|].
     rewrite L in L0. inversion L0; subst fs0. clear L0.
     assert (VA : ValidAt Sg NL c fs m) by (split; assumption).
     unfold cls_member_ok in HM. rewrite L in HM. apply andb_true_iff in HM. destruct HM as [NDW HM]. apply nodupb_NoDup in NDW. rewrite forallb_forall in HM.
@@ -251,15 +265,16 @@ Proof.
         destruct (fval f) as [| | | | | |l] eqn:FV; try exact KS. destruct l as [|s0 [|s1 l]]; try exact KS.
         destruct (fvalopt f) eqn:FO; [exact KS|]. unfold jvalidate in Jf. rewrite FV, FO in Jf.
         destruct v; try discriminate Jf. cbn in Jf. rewrite orb_false_r in Jf. cbn. rewrite String.eqb_sym. exact Jf. }
-    assert (LK' : sleaf h (shape_of (JObj (m2 ++ ex))) = Some r).
+    assert (LK' : sleaf h (shape_of (JObj m')) = Some r).
     { cbn [shape_of] in *.
-      assert (RF : Refines P (map (fun kv => (fst kv, kinfo_of (snd kv))) m) (map (fun kv => (fst kv, kinfo_of (snd kv))) (m2 ++ ex)));
+      assert (RF : Refines P (map (fun kv => (fst kv, kinfo_of (snd kv))) m) (map (fun kv => (fst kv, kinfo_of (snd kv))) m'));
         [split | exact (proj1 (sleaf_mono h _ _ RF) _ LK)].
-      - intros k Ik. rewrite !map_fst_map_snd. symmetry. apply (mem_ext _ _ _ _ _ Fm FR). apply HPr. exact Ik.
+      - intros k Ik. rewrite !map_fst_map_snd. symmetry. apply (mem_ext _ _ _ _ Fm). apply HPr. exact Ik.
       - intros k a As. rewrite assoc_map_snd in As. destruct (assoc k m) as [v|] eqn:Av; [|discriminate]. cbn in As. inversion As; subst a.
-        destruct (F2_assoc _ _ _ k Fm v Av) as [v' [Av' Q]]. cbn [fst snd] in Q.
-        exists (kinfo_of v'). split; [rewrite assoc_map_snd, (assoc_app_l _ _ _ _ Av'); reflexivity|].
         destruct (Hp k v (assoc_in _ _ _ Av)) as [f [If [Ef [Pf _]]]].
+        assert (MK : mem k D = true) by (rewrite <- Ef; exact (D_wires c fs f L If)).
+        destruct (assoc_ext_some _ _ _ k v Fm MK Av) as [v' [Av' Q]]. cbn [fst snd] in Q.
+        exists (kinfo_of v'). split; [rewrite assoc_map_snd, Av'; reflexivity|].
         apply kle_refl_of_eq. symmetry. apply (xt_kinfo _ _ Pf). apply Q; assumption. }
     destruct r; try discriminate. destruct e; try discriminate. destruct t; try discriminate. rename n into c'.
     apply andb_true_iff in HM. destruct HM as [IN HM]. apply andb_true_iff in IN. destruct IN as [IN InG]. apply existsb_pty_in in IN.
@@ -307,25 +322,25 @@ Proof.
       clear -F HN'. induction F as [|a b m m' [E _] F IH]; [constructor|]. inversion HN' as [|? ? ? ? E1 HN1]; subst.
       constructor; [rewrite E, E1; reflexivity | apply IH; exact HN1].
     - (* PyCls *)
-      inversion X as [| | |c0 fs0 m1 m2 ex L0 Fm FR|]; subst; [apply inv_refl|].
+      inversion X as [| | |c0 fs0 m1 m' L0 Fm|]; subst; [apply inv_refl|].
       rewrite L in L0. inversion L0; subst fs0. clear L0.
       assert (InG : mem c GC = true) by (unfold RoundTrip.okty in O; cbn [flat_ty handled andb] in O; exact O).
       pose proof (T_wires c fs InG L) as NDW.
-      destruct (uniform (fun f n => sfield (structure n) (JObj (m2 ++ ex)) f = sfield (structure n) (JObj m) f) fs) as [N HN].
+      destruct (uniform (fun f n => sfield (structure n) (JObj m') f = sfield (structure n) (JObj m) f) fs) as [N HN].
       { intros f If.
-        assert (NI : ~ In (fwire f) (keys ex)) by (apply fresh_not_in; [exact FR | exact (D_wires c fs f L If)]).
+        pose proof (D_wires c fs f L If) as MK.
         destruct (assoc (fwire f) m) as [v|] eqn:Av.
-        - destruct (F2_assoc _ _ _ (fwire f) Fm v Av) as [v' [Av' Q]]. cbn [fst snd] in Q.
+        - destruct (assoc_ext_some _ _ _ (fwire f) v Fm MK Av) as [v' [Av' Q]]. cbn [fst snd] in Q.
           destruct (HP (fwire f) v (assoc_in _ _ _ Av)) as [f' [If' [Ef' [Pf' _]]]].
           assert (f' = f).
           { pose proof (find_wire fs (fwire f) f' NDW If' Ef') as F1. pose proof (find_wire fs (fwire f) f NDW If eq_refl) as F2. congruence. }
           subst f'.
           destruct (SUB v (ftype f) v' (jsize_in_obj _ _ _ (assoc_in _ _ _ Av)) (T_fields c fs f InG L If) Pf' (Q f If eq_refl)) as [n0 Hn0].
-          exists n0. intros n Ln. apply sfield_ext; [exact (F2_keys _ _ _ Fm) | exact NI|].
+          exists n0. intros n Ln. apply sfield_ext; [exact (mem_ext _ _ _ _ Fm MK) | | intros AN; rewrite Av in AN; discriminate].
           intros v0 Av0. rewrite Av in Av0. inversion Av0; subst v0. exists v'. split; [exact Av' | apply Hn0; exact Ln].
-        - exists 0. intros n _. apply sfield_ext; [exact (F2_keys _ _ _ Fm) | exact NI|]. intros v0 Av0. rewrite Av in Av0. discriminate. }
+        - exists 0. intros n _. apply sfield_ext; [exact (mem_ext _ _ _ _ Fm MK) | intros v0 Av0; rewrite Av in Av0; discriminate | intros _; exact (assoc_ext_none _ _ _ _ Fm MK Av)]. }
       exists (S N). intros n Ln. destruct n as [|n]; [lia|]. cbn [Sem.structure step]. rewrite L.
-      rewrite (mapM_ext (sfield (structure n) (JObj (m2 ++ ex))) (sfield (structure n) (JObj m)) fs); [|intros f If; apply HN; [lia | exact If]].
+      rewrite (mapM_ext (sfield (structure n) (JObj m')) (sfield (structure n) (JObj m)) fs); [|intros f If; apply HN; [lia | exact If]].
       rewrite T_extra. reflexivity. }
   intros P O V j' X. destruct (nonunion P) eqn:NU; [exact (A P NU O V j' X)|].
   destruct P as [| | | | | |ms| | | | | | | |]; try discriminate.
